@@ -968,18 +968,24 @@ def prefixed_error_case(ctx, rng, idx):
     holder = ['LogLikelihood', 'PredictiveModel'][(idx // 2) % 2]
     cnames = [sorted(D.ERROR_MODELS)[int(rng.integers(4))] for _ in range(2)]
     o_fix = int(rng.integers(2))
+    # output names as long as those of compartment models (the prefixed
+    # error parameter names then exceed 50 characters)
+    long_names = rng.random() < 0.5
+    onames = ['central_compartment.free_drug_concentration_%d' % (o + 1)
+              if long_names else 'Out %d' % (o + 1) for o in range(2)]
     em_full = []
     for o, cn in enumerate(cnames):
-        em_full += ['Out %d %s' % (o + 1, n_) for n_ in getattr(
+        em_full += ['%s %s' % (onames[o], n_) for n_ in getattr(
             chi, cn)().get_parameter_names()]
     full = ['a1', 'a2', 'k', 'b'] + em_full
     base_names = getattr(chi, cnames[o_fix])().get_parameter_names()
     j = int(rng.integers(len(base_names)))
-    fixed_public = 'Out %d %s' % (o_fix + 1, base_names[j])
+    fixed_public = '%s %s' % (onames[o_fix], base_names[j])
     value = float(rng.uniform(0.2, 0.5))
     feats = {'route': route, 'holder': holder, 'error_models': cnames,
-             'fixed': fixed_public}
-    ctx.case(('prefixed_error', route, holder, tuple(cnames), fixed_public),
+             'fixed': fixed_public, 'long_output_names': long_names}
+    ctx.case(('prefixed_error', route, holder, tuple(cnames), fixed_public,
+              long_names),
              True, sample=feats)
     times = [np.sort(rng.choice(GL.POOL[1:], size=3, replace=False))
              for _ in range(2)]
@@ -990,10 +996,10 @@ def prefixed_error_case(ctx, rng, idx):
             for o in range(2):
                 for tt, vv in zip(times[o], obs[o]):
                     rows.append({'ID': 1, 'Time': float(tt),
-                                 'Observable': 'Out %d' % (o + 1),
+                                 'Observable': onames[o],
                                  'Value': float(vv)})
             c = chi.ProblemModellingController(
-                toys.ToyMulti(2), [getattr(chi, cn)() for cn in cnames])
+                toys.ToyMulti(2, onames), [getattr(chi, cn)() for cn in cnames])
             c.set_data(pd.DataFrame(rows))
             c.fix_parameters({fixed_public: value})
             if holder == 'LogLikelihood':
@@ -1008,9 +1014,9 @@ def prefixed_error_case(ctx, rng, idx):
             ems[o_fix] = chi.ReducedErrorModel(ems[o_fix])
             ems[o_fix].fix_parameters({base_names[j]: value})
             if holder == 'LogLikelihood':
-                obj = chi.LogLikelihood(toys.ToyMulti(2), ems, obs, times)
+                obj = chi.LogLikelihood(toys.ToyMulti(2, onames), ems, obs, times)
             else:
-                obj = chi.PredictiveModel(toys.ToyMulti(2), ems)
+                obj = chi.PredictiveModel(toys.ToyMulti(2, onames), ems)
     except Exception as e:      # noqa
         ctx.violation_exc('construction_raises', e, {'case': feats}, feats)
         return
